@@ -668,6 +668,8 @@ pub enum Op {
     Snapshot { r: u8 },
     TimeTravel { r: u8, heads: u16 },
     LowLevel { r: u8, kind: u8, id: u8, content: J },
+    /// composite: `from` commits, `r` melds + refreshes from it, edits and commits (yields merge blocks)
+    MergeCommit { r: u8, from: u8, edit: Vec<EditStep> },
 }
 
 impl Op {
@@ -687,6 +689,7 @@ impl Op {
             Op::Snapshot { .. } => "snapshot",
             Op::TimeTravel { .. } => "timetravel",
             Op::LowLevel { .. } => "lowlevel",
+            Op::MergeCommit { .. } => "mergecommit",
         }
     }
 }
@@ -708,6 +711,7 @@ pub struct Mix {
     pub snapshot: u32,
     pub timetravel: u32,
     pub lowlevel: u32,
+    pub mergecommit: u32,
     pub rich: bool,
     pub rich_info: bool,
 }
@@ -729,6 +733,7 @@ impl Default for Mix {
             snapshot: 1,
             timetravel: 1,
             lowlevel: 0,
+            mergecommit: 2,
             rich: false,
             rich_info: false,
         }
@@ -765,6 +770,7 @@ pub fn op(m: &Mix) -> BoxedStrategy<Op> {
         m.lowlevel,
         (r, 0u8..4, 0u8..6, jlight()).prop_map(|(r, kind, id, content)| Op::LowLevel { r, kind, id, content }).boxed(),
     );
+    add(m.mergecommit, (r, any::<u8>(), edit(m.rich)).prop_map(|(r, from, edit)| Op::MergeCommit { r, from, edit }).boxed());
     proptest::strategy::Union::new_weighted(alts).boxed()
 }
 
